@@ -19,6 +19,7 @@ EXPLANATION = (
     " (R7) the token search looks for `def` only when the callable handed in is not a lambda (callable.__name__ != \"<lambda>\"), so a lambda on the line of a one-line def or after a decorator is not mistaken for the function; (R8) re-aligning the source of a def removes at most each line's own leading blanks."
     " (R4, as of round 10) one counter per bracket kind or one nesting depth, moved by *operator* tokens only (the literal part of an f-string can be exactly one bracket)."
     " (R5, as of D46) a decorated def is refused, and the lambda made from a def has its parameters and defaults without the annotations."
+    " (R9, as of D52) when the token search has backed up to the start of the statement, only a lambda that starts on the callable's own first line is a candidate, and lambdas on the lines in front of it do not end the collection."
 )
 NOT_DECIDED = "that the tokenizer heuristic finds the right lambda for every source layout, and that every documented layout is recovered without error (both quantify over source text fed to a line-number-keyed heuristic)."
 
